@@ -81,6 +81,28 @@ class Ctx:
     def note(self, s):
         self.notes.append(s)
 
+    def borrow(self, module_name, only, prefix):
+        """Re-evaluate instances `only` of another property's table under this property (shared mechanisms)."""
+        mod = importlib.import_module("snelcheck.rules.%s" % module_name)
+        mod.run(_SubCtx(self, set(only), prefix))
+
+
+class _SubCtx:
+    def __init__(self, parent, only, prefix):
+        self.parent, self.only, self.prefix = parent, only, prefix
+        self.F, self.prop, self.tier = parent.F, parent.prop, parent.tier
+
+    def run(self, iid, kind, container, statement, fn):
+        if iid not in self.only:
+            return None
+        return self.parent.run("%s/%s" % (self.prefix, iid), kind, container, statement, fn)
+
+    def note(self, s):
+        pass
+
+    def instance(self, *a):
+        return self.parent.instance(*a)
+
 
 def site(body, bb):
     t = body.blocks[bb]["t"]
